@@ -162,6 +162,21 @@ CLAIMED = {
         "(stated in the module, then checked on the implementation's values >= -1e-9).",
         "TLA+ exact identities checked with TLC + exact-statistics replay + trace validation",
     ),
+    "C17": (
+        "7/C17",
+        "AnomaliserDefs.tla, Anomaliser.tla, Trace_Anomaliser.tla",
+        "TLC checks the model of StatThresholdAnomaliser (clone-and-fit; rows grouped by the dense segment "
+        "label; statistic thresholded with strict comparisons; one interval per flagged group) against the "
+        "set of segments whose exact rational statistic lies strictly outside the bounds, for every integer "
+        "series, changepoint set, statistic (sum, mean, min, max, median, a user count statistic) and pair of "
+        "bounds within the constants, and that the user's detector object is never fitted; every case is "
+        "replayed around a user-defined stub detector for four input representations, and runs around PELT, "
+        "MovingWindow and SeededBinarySegmentation are validated by TLC against the segmentation of a fresh "
+        "clone of the same detector.",
+        "Integer data (so that comparisons of mean/median with the bounds are exact); exhaustive for n<=4 "
+        "(quick, 2 of 8 slices) / n<=5,6 (thorough slices); univariate data as the property states.",
+        "TLA+ model checked with TLC + spec-to-code replay + trace validation",
+    ),
 }
 
 NOT_YET = {}
